@@ -1,16 +1,195 @@
 /-
-C07 — property theorems (first layer: number / key / pinned witnesses).
+C07 — property theorems.  Statement file; helper lemmas are in LemmasLex,
+LemmasParse, LemmasEncode, PrintSurface.
+
+Property: for every value the standard JSON encoder can encode, the JSONx text
+produced by Marshal is accepted by Unmarshal and decodes to a JSON-equal value.
+
+Shape of the argument.  (1) Character level: `LexNumber` reads every RFC 8259
+number literal as one token (`number_literal_accepted`), the printer's bare keys
+are exactly the lexer's identifiers that are not keywords
+(`ident_key_iff_isIdent`, `keyword_keys_quoted`).  (2) Token level: for *every*
+surface tree `r` (every spelling of numbers, strings, keys, commas) whose leaves
+the delegated functions accept, the parser consumes exactly `r.toks`, reports
+nothing, and the encoder emits the canonical JSON of the meaning of `r`
+(`parse_render`).  (3) The printer is one surface, and the meaning of what it
+writes is the standard reading of the value (`marshal_unmarshal_partial`).
+
+The hypotheses on the code (`CfgOK`) are discharged for the working tree by the
+regenerated obligation `gen_cfg_ok`; for the pinned tree they are false and the
+concrete witnesses below are theorems.
 -/
+import PubModel.C07.PrintSurface
 import PubModel.C07.Demo
-import PubModel.C07.Obligations
 
 namespace PubModel.C07
 
-/-! ### the pinned tree violates the property: concrete witnesses -/
+/-! ### (1) character level -/
 
-/-- pinned `LexNumber` stops before the `+` of `1e+06`, leaving the float token `1e` -/
+/-- **LexNumber accepts every literal the printer can emit**: any unsigned RFC 8259
+    number literal (integer, fraction, `e`/`E`, `e+`/`e-`) followed by something
+    that cannot extend it is read as exactly one token, an integer token iff the
+    literal has neither fraction nor exponent.  (The sign is a separate operator
+    token handled by `parseValue`, see `parse_render`.) -/
+theorem number_literal_accepted (cfg : Cfg) (hcfg : CfgOK cfg) (lit rest : Chars)
+    (hl : isJsonUNum lit = true) (hf : NumFollow rest) :
+    lexNumber cfg.expSigns (lit ++ rest) = (⟨if isIntLit lit = true then .int else .float, lit⟩, rest) :=
+  lexNumber_json cfg.expSigns hcfg.expPlus hcfg.expMinus lit rest hl hf
+
+example : isJsonUNum (str "1e+06") = true ∧ isJsonUNum (str "1.5E-7") = true ∧ isJsonUNum (str "0") = true ∧
+    isJsonUNum (str "18446744073709551615") = true ∧ NumFollow (str ",\n") := by
+  refine ⟨by decide, by decide, by decide, by decide, ⟨?_, by decide, by decide, by decide⟩⟩
+  intro c h; simp [str] at h; subst h; decide
+
+example : lexNumber fixedCfg.expSigns (str "1e+06,\n") = (⟨.float, str "1e+06"⟩, str ",\n") := by decide
+
+/-- the pinned `LexNumber` stops before the `+` of `1e+06`, leaving the float token `1e` -/
 theorem pinned_lexNumber_rejects_exp_plus :
     lexNumber pinnedCfg.expSigns (str "1e+06") = (⟨.float, str "1e"⟩, str "+06") := by decide
+
+/-- **Bare keys are exactly identifiers**: `isIdent` (print.go) holds for a key iff its
+    characters are an identifier letter followed by identifier characters — what
+    `LexIdent` reads as one token (`lexIdent_accepts`) — and it is not a keyword. -/
+theorem ident_key_iff_isIdent (kws : List Chars) (k : Bytes) :
+    isIdent kws k = true ↔
+      (∃ c r, bytesChars k = c :: r ∧ isIdentLetter c = true ∧ r.all isIdentChar = true) ∧ bytesChars k ∉ kws :=
+  isIdent_iff kws k
+
+/-- **Keyword keys are quoted**: a key spelled like a keyword is never printed bare. -/
+theorem keyword_keys_quoted (kws : List Chars) (k : Bytes) (h : bytesChars k ∈ kws) : isIdent kws k = false :=
+  isIdent_keyword kws k h
+
+example : isIdent fixedCfg.keywords (identBytes (str "Field_9")) = true ∧
+    isIdent fixedCfg.keywords (identBytes (str "true")) = false ∧
+    isIdent fixedCfg.keywords (identBytes (str "9a")) = false ∧
+    isIdent fixedCfg.keywords (identBytes (str "a b")) = false := by decide
+
+/-! ### (2) token level -/
+
+section
+variable {φ : Type} (cfg : Cfg) (hcfg : CfgOK cfg) (L : Leaf φ)
+include hcfg
+
+/-- **parse_render**: parsing the rendering of a value under *any* surface choice
+    yields the canonical JSON of its meaning.  `r` ranges over all surface trees:
+    any sign / decimal, hex or octal integer literal / float literal / string
+    literal the leaves accept, bare or quoted keys, trailing commas, dotted
+    identifier lists; `rest` is whatever follows (ToJSON does not look at it). -/
+theorem parse_render (r : RV) (j : JV (Num φ)) (hv : r.val L = some j) (hw : r.WF)
+    (rest : List Tok) (hf : FollowOK rest) :
+    toJSONToks cfg L (plain (r.toks ++ rest)) = .ok (emit L j) := by
+  have hs : (r.val L).isSome = true := by simp [hv]
+  have hn : r.size ≤ (plain (r.toks ++ rest)).length + 2 := by
+    have := RV.size_le r; simp [plain]; omega
+  have hp := parseValue_render cfg hcfg L r hs hw rest hf _ hn
+  have he := encodeValue_ast cfg hcfg L r j hv
+  simp [toJSONToks, init_plain, hp, he]
+
+/-- what may follow the value in a document read by Unmarshal: nothing, end of
+    file, or one separator (the final newline / `;`) and end of file -/
+inductive Trailer : List Tok → Prop
+  | none : Trailer []
+  | eof : Trailer [eofTok]
+  | semi (l : Chars) : Trailer [⟨.semi, l⟩]
+  | semiEof (l : Chars) : Trailer [⟨.semi, l⟩, eofTok]
+
+/-- the same for the whole-document entry point `Unmarshal` -/
+theorem unmarshal_render (r : RV) (j : JV (Num φ)) (hv : r.val L = some j) (hw : r.WF)
+    (tr : List Tok) (ht : Trailer tr) :
+    unmarshalToks cfg L (plain (r.toks ++ tr)) = .ok (emit L j) := by
+  have hs : (r.val L).isSome = true := by simp [hv]
+  have hn : r.size ≤ (plain (r.toks ++ tr)).length + 2 := by
+    have := RV.size_le r; simp [plain]; omega
+  have hf : FollowOK tr := by cases ht <;> simp [FollowOK, tokOp, eofTok]
+  have hp := parseValue_render cfg hcfg L r hs hw tr hf _ hn
+  have he := encodeValue_ast cfg hcfg L r j hv
+  cases ht <;>
+    (simp only [unmarshalToks, decodeToks, init_plain, hp]
+     simp [he, PS.see, eofTok])
+
+/-! ### (3) the printer is one surface -/
+
+/-- **marshal_unmarshal** (token level).  For every value `v` whose number leaves are
+    RFC 8259 literals, `Unmarshal` applied to the token stream of `Marshal(v)`
+    succeeds and hands to `encoding/json` the canonical JSON text of `j`, where `j`
+    is the standard reading of `v` (keys in `sort.Strings` order): integers exactly,
+    fractions/exponents as the float64 `strconv.ParseFloat` reads, strings and keys
+    unchanged.
+
+    Partial: the statement is about `printToks`, the token stream of the printed
+    text.  The missing step is the character-level
+      `lex_render : tokens cfg (marshal cfg L v) = plain (printToks cfg.keywords L v)`
+    (maximal munch over the printer's layout: four-space indentation, `": "`, `",\n"`).
+    Its number and identifier cases are `number_literal_accepted` and
+    `lexIdent_accepts`; the string case needs the shape contract of `strconv.Quote`
+    (`isQuoteShape`, validated by the harness).  Until it is proved the step is
+    covered by the correspondence run: the harness compares `tokens`-then-parse of
+    the model with the real `Unmarshal` on the real `Marshal` output of every
+    generated value. -/
+theorem marshal_unmarshal_partial (hL : RoundTripLeaf L) (v : JV Chars) (hn : NumsOK (JV.canon v)) :
+    ∃ j, readJ L (JV.canon v) = some j ∧
+      unmarshalToks cfg L (plain (printToks cfg.keywords L v)) = .ok (emit L j) := by
+  have hsome := readJ_isSome L hL (JV.canon v) hn
+  cases hj : readJ L (JV.canon v) with
+  | none => simp [hj] at hsome
+  | some j =>
+    refine ⟨j, rfl, ?_⟩
+    have hval : (printRV cfg.keywords L (JV.canon v)).val L = some j := by
+      rw [printRV_val cfg.keywords L hL _ hn, hj]
+    exact unmarshal_render cfg hcfg L _ j hval (printRV_WF cfg.keywords L _) _ (.semiEof _)
+
+end
+
+/-! ### non-vacuity and concrete instances -/
+
+theorem demoLeaf_roundTrip : RoundTripLeaf demoLeaf where
+  unquote_quote s := by
+    show some (identBytes (((['"'] ++ (bytesChars s ++ ['"'])).drop 1).dropLast)) = some s
+    simp [isIdent_bytes]
+  parseFloat_json lit h := by simp [demoLeaf, h]
+
+theorem fixedCfg_ok : CfgOK fixedCfg := by decide
+
+/-- a surface tree using every extension at once: `{a: -0x10, "b": [+1.5e+3, 007,], c: x.y}` -/
+def demoTree : RV :=
+  .obj (.cons (.bare (str "a")) (.int (some '-') (str "0x10"))
+    (.cons (.quoted (str "\"b\"")) (.arr (.cons (.flt (some '+') (str "1.5e+3")) (.cons (.int none (str "007")) .nil)))
+      (.single (.bare (str "c")) (.idents (str "x") [str "y"]))))
+
+example : demoTree.WF ∧ (demoTree.val demoLeaf).isSome = true := by
+  refine ⟨?_, by decide⟩
+  simp [demoTree, RV.WF, RO.WF, RL.WF, leadOK]
+
+example : toJSONToks fixedCfg demoLeaf (plain (demoTree.toks ++ [eofTok])) =
+    .ok (str "{\"a\":-16,\"b\":[1.5e+3,7],\"c\":[\"x\",\"y\"]}") := by decide
+
+/-- `{"id": 9223372036854775807, "ok": [true, -1.5, 1e+06], "null": "x"}` -/
+def demoValue : JV Chars :=
+  .obj (.cons (identBytes (str "ok")) (.arr (.cons (.bool true) (.cons (.num true (str "1.5")) (.cons (.num false (str "1e+06")) .nil))))
+    (.cons (identBytes (str "id")) (.num false (str "9223372036854775807"))
+      (.cons (identBytes (str "null")) (.str (identBytes (str "x"))) .nil)))
+
+example : NumsOK (JV.canon demoValue) := by
+  have h : JV.canon demoValue =
+      .obj (.cons (identBytes (str "id")) (.num false (str "9223372036854775807"))
+        (.cons (identBytes (str "null")) (.str (identBytes (str "x")))
+          (.cons (identBytes (str "ok"))
+            (.arr (.cons (.bool true) (.cons (.num true (str "1.5")) (.cons (.num false (str "1e+06")) .nil)))) .nil))) := by
+    rfl
+  rw [h]
+  simp only [NumsOK, NumsOKO, NumsOKL, and_true, true_and]
+  decide
+
+set_option maxRecDepth 8000 in
+example : unmarshal fixedCfg demoLeaf (marshal fixedCfg demoLeaf demoValue) =
+    .ok (str "{\"id\":9223372036854775807,\"null\":\"x\",\"ok\":[true,-1.5,1e+06]}") := by decide
+
+-- on this value the character-level step holds by computation
+set_option maxRecDepth 8000 in
+example : tokens fixedCfg (marshal fixedCfg demoLeaf demoValue) =
+    plain (printToks fixedCfg.keywords demoLeaf demoValue) := by decide
+
+/-! ### the pinned tree violates the property: concrete witnesses -/
 
 /-- hence the printer's own `1e+06` is rejected -/
 theorem pinned_unmarshal_1e6_fails : unmarshal pinnedCfg demoLeaf (str "1e+06\n") = .err "jsonx.floatLit" := by decide
